@@ -1392,7 +1392,33 @@ def run_persist_case(case):
     return {"evals": evals, "fails": fails}
 
 
+def run_large_edge_list(case):
+    """Edge-list construction of a sparse network with tens of thousands of nodes and links leaving high-numbered nodes
+    (node index * N exceeds 2^31): the stored links are the given ones."""
+    from pyunicorn.core.network import Network
+    N, directed = int(case["N"]), bool(case["directed"])
+    el = np.array(case["edges"], dtype=case.get("dtype", "int64"))
+    fails, evals = [], [(("large_edge_list", N, directed, el.tobytes()), True)]
+    try:
+        with quiet():
+            net = Network(edge_list=el, n_nodes=N, directed=directed, silence_level=3)
+        want = set((int(a), int(b)) for a, b in el.tolist())
+        if not directed:
+            want |= set((b, a) for a, b in want)
+        coo = net.sp_A.tocoo()
+        got = set((int(a), int(b)) for a, b, v in zip(coo.row, coo.col, coo.data) if v)
+        n_links = len(want) if directed else len(want) // 2
+        if int(net.N) != N or got != want or int(net.n_links) != n_links or int(net.graph.ecount()) != n_links:
+            fails.append(("init_edge_list/large-network-links", "N=%r n_links=%r graph edges=%r; links missing %s, spurious %s" % (
+                net.N, net.n_links, net.graph.ecount(), sorted(want - got)[:4], sorted(got - want)[:4])))
+    except Exception as e:   # noqa
+        fails.append(("init_edge_list/large-network-links/raises", f"{type(e).__name__}: {e}"))
+    return {"evals": evals, "fails": fails}
+
+
 def run_any(case):
+    if case.get("kind", "network") == "large_edge_list":
+        return run_large_edge_list(case)
     if case.get("kind", "network") == "network":
         return run_case(case)
     if case["kind"].startswith("p_"):
@@ -1507,6 +1533,10 @@ def make_cases(tier, seed):
                                {"link_weights": rand_attr(rs, n, directed, False)},
                       "rs": int(rs.randint(2 ** 31 - 1))})
     cases.extend(make_persist_cases(tier, seed))
+    for N_, dt_ in ((50000, "int64"), (70000, "int32"), (70000, "int64")):
+        for directed_ in (False, True):
+            cases.append({"kind": "large_edge_list", "N": N_, "directed": directed_, "dtype": dt_,
+                          "edges": [[N_ - 1, 12], [5, 7], [N_ - 2, N_ - 3], [46342, 46341], [3, N_ - 1]]})
     return cases
 
 
